@@ -33,6 +33,8 @@ def kexinit_payload(kex, key, enc, mac, comp=('none',), lang=(), enc_c=None, mac
     def nl(names):
         if isinstance(names, (bytes, bytearray)):
             return sshstr(bytes(names))
+        if hasattr(names, 'els') and not isinstance(names, str):     # symbolic bytes: a raw name-list body
+            return u32(len(names)) + names
         if names and any(not isinstance(x, str) for x in names):
             # symbolic names: join manually
             out = b''
